@@ -7,6 +7,7 @@ package torrent
 
 import (
 	"fmt"
+	"net"
 	"reflect"
 	"runtime"
 	"strings"
@@ -274,4 +275,40 @@ func (s *Session) VerifResumeBitfield(id string) []byte {
 		return nil
 	}
 	return spec.Bitfield
+}
+
+// ---- DHT configured on, without a live DHT node (C19). The node itself is never touched: s.dht stays nil.
+
+// VerifFakeDHT makes the session behave as configured with DHT enabled (announcer creation, request set, reserved bit).
+func (s *Session) VerifFakeDHT(on bool) {
+	s.config.DHTEnabled = on
+	if on {
+		if s.dhtPeerRequests == nil {
+			s.dhtPeerRequests = make(map[*torrent]struct{})
+		}
+		s.extensions[7] |= 0x01
+	} else {
+		s.extensions[7] &^= 0x01
+	}
+}
+
+// VerifDHTRequested reports whether the torrent is in the session's DHT request set.
+func (t *Torrent) VerifDHTRequested() bool {
+	s := t.torrent.session
+	s.mPeerRequests.Lock()
+	defer s.mPeerRequests.Unlock()
+	_, ok := s.dhtPeerRequests[t.torrent]
+	return ok
+}
+
+func (t *Torrent) VerifHasDHTAnnouncer() bool { return t.torrent.dhtAnnouncer != nil }
+
+// VerifInjectDHTPeers delivers a DHT lookup result the way processDHTResults does.
+func (t *Torrent) VerifInjectDHTPeers(addrs []*net.TCPAddr) bool {
+	select {
+	case t.torrent.dhtPeersC <- addrs:
+		return true
+	default:
+		return false
+	}
 }
